@@ -261,11 +261,27 @@ def reference_for(reduction):
     if reduction is weighted_median:
         return "weighted_median", weighted_median
     name = getattr(reduction, "__name__", type(reduction).__name__)
+    origin = "numpy" if str(getattr(reduction, "__module__", "")).startswith("numpy") else "user"
 
     def apply(v, w=None):
-        return float(reduction(v)) if w is None else float(reduction(v, weights=w))
+        with np.errstate(all="ignore"):
+            return float(reduction(v)) if w is None else float(reduction(v, weights=w))
 
-    return "callable:" + name, apply
+    return "callable:%s.%s" % (origin, name), apply
+
+
+def result_scale(name, v, want):
+    """
+    Magnitude the tolerance 64*eps*n*scale of a reduced value is built on: max|member| for the mean-like reductions; for an
+    arbitrary callable (applied by brute force to the same members) also the size of its own result, and the squared
+    magnitude for variance-like ones (their rounding error grows with max|d|^2, e.g. pandas' and numpy's variance algorithms differ).
+    """
+    scale = float(np.max(np.abs(v)))
+    if name.startswith("callable:"):
+        scale = max(scale, abs(want))
+        if "var" in name:
+            scale = max(scale, scale * scale)
+    return scale
 
 
 # --------------------------------------------------------------------------
@@ -475,10 +491,11 @@ def check_layout(call, out_coords, out_values, what):
     return None, comps
 
 
-def check_block_values(call, observed, impl, weighted, stable=None):
+def check_block_values(call, observed, impl, weighted, stable=None, name=""):
     """
     Compare every entry of every component with the reference reduction of that block's members.
     Returns (list of failure dicts, number judged, number skipped, largest error/tolerance).
+    A reference that is not finite (a product that overflows) is matched exactly (inf == inf, NaN with NaN).
     """
     failures, judged, skipped, worst = [], 0, 0, 0.0
     for c in range(call.ncomp):
@@ -491,10 +508,13 @@ def check_block_values(call, observed, impl, weighted, stable=None):
                 skipped += 1
                 continue
             want = impl(v, w)
-            tol = value_tolerance(v, members.size, call.data_eps[c])
+            tol = 64 * call.data_eps[c] * members.size * result_scale(name, v, want) + TINY
             got = float(observed[c][k])
-            err = abs(got - want)
             judged += 1
+            if not np.isfinite(want):
+                err = 0.0 if (got == want or (np.isnan(got) and np.isnan(want))) else np.inf
+            else:
+                err = abs(got - want)
             if err <= tol:
                 worst = max(worst, err / tol)
             elif len(failures) < 3:
@@ -505,7 +525,7 @@ def check_block_values(call, observed, impl, weighted, stable=None):
     return [f for f in failures if f is not None], judged, skipped, worst
 
 
-def check_block_coordinates(call, out_coords, impl):
+def check_block_coordinates(call, out_coords, impl, name=""):
     """Centre of that very block, or the (unweighted) reduction of the members' coordinates."""
     failures, judged, worst = [], 0, 0.0
     centre = bool(call.cfg.center_coordinates)
@@ -523,10 +543,14 @@ def check_block_coordinates(call, out_coords, impl):
                 kind = "centre of block %d" % label
             else:
                 v = source[members]
-                want, tol = impl(v, None), value_tolerance(v, members.size, call.coord_eps[i])
+                want = impl(v, None)
+                tol = 64 * call.coord_eps[i] * members.size * result_scale(name, v, want) + TINY
                 kind = "reduction of the %d member coordinates" % members.size
             got = float(out[k])
-            err = abs(got - want)
+            if not np.isfinite(want):  # a product of coordinates that overflows: matched exactly
+                err = 0.0 if (got == want or (np.isnan(got) and np.isnan(want))) else np.inf
+            else:
+                err = abs(got - want)
             judged += 1
             if err <= tol:
                 if tol > 0:
